@@ -116,7 +116,17 @@ def _(value: Enum):
 @customize_repr
 def _(value: Flag):
     name = type(value).__qualname__
-    return " | ".join(f"{name}.{flag.name}" for flag in type(value) if flag in value)
+    flags = [flag for flag in type(value) if flag in value]
+
+    combined = type(value)(0)
+    for flag in flags:
+        combined |= flag
+
+    if not flags or combined != value:
+        # no flag is set, or the value has bits which belong to no flag
+        return f"{name}({value.value!r})"
+
+    return " | ".join(f"{name}.{flag.name}" for flag in flags)
 
 
 def sort_set_values(set_values):
